@@ -197,7 +197,7 @@ PROOFS = [
     {'name': 'sizes', 'enforce': None, 'lemma': 'lemma_sizes', 'props': ['C20'],
      'harness': 'void h_sizes(void) { size_t q, r; lemma_sizes(q, r); }\n'},
     {'name': 'Decode_functional', 'enforce': 'Base64Decoder_Decode', 'replace': ['Base64Decoder_CalculateDecodedSize'], 'loops': 'contracts',
-     'props': ['C20'], 'cost': 50, 'defs': ['-DVS_FUNCTIONAL'], 'timeout': 1500,
+     'props': ['C20'], 'cost': 50, 'defs': ['-DVS_FUNCTIONAL'], 'timeout': 3600,
      'harness': 'void h_Decode_functional(void) { struct Base64Decoder *a0; Base64Decoder_Decode(a0); }\n'},
     {'name': 'DecodeCharacter', 'enforce': 'Base64Decoder_DecodeCharacter', 'props': ['C20', 'C03'],
      'replay': {'driver': 'b64', 'argv': ['decchar', '$Character'], 'include_cc': ('VS_BASE64_CC', 'src/common/base64.cc')}},
